@@ -23,6 +23,10 @@ CHAINED = {
     "chain:STOCH+TSI<-close": [("STOCH", dict(period=3, slow_period=2, smoothing_k=2)), ("TSI", dict(period=3))],
     "chain:BBANDS<-RSI": [("RSI", dict(period=2)), ("BBANDS", dict(period=3, input_value="RSI_2"))],
     "chain:mean_rising<-EMA": [("EMA", dict(period=2)), ("Amorph", dict(analysis="mean_rising", indicator="EMA_2", length=3))],
+    # readers of a SPARSE series (None for as long as the trend points the other way): the reader keeps storing None / looks at
+    # a window in which nothing is present
+    "chain:highest<-Supertrend.short": [("Supertrend", dict(period=2, multiplier=1.0)), ("Amorph", dict(analysis="highest", indicator="Supertrend_2.short", length=4))],
+    "chain:SMA<-Supertrend.long": [("Supertrend", dict(period=2, multiplier=1.0)), ("SMA", dict(period=3, input_value="Supertrend_2.long"))],
 }
 TOOL = 3  # sys.monitoring.PROFILER_ID + 1 (a free tool id)
 
